@@ -95,7 +95,7 @@ func explainStmt(src string) (text string, status string) {
 	if len(stmts) != 1 {
 		return fmt.Sprintf("%d statements", len(stmts)), "ERR"
 	}
-	return parser.Explain(stmts[0]), "OK"
+	return rdr.Twice(func() string { return parser.Explain(stmts[0]) }), "OK"
 }
 
 func splitLines(text string) []string {
